@@ -79,6 +79,11 @@ import Mahotas.Model.C04
 import Mahotas.Generated.Tables
 import Mahotas.Model.C10Misc
 import Mahotas.Model.C10Surf
+import Mahotas.Model.C10Labeled
+import Mahotas.Model.C10Flood
+import Mahotas.Model.C10Feat
+import Mahotas.Model.C10Conv
+import Mahotas.Model.C10Alloc
 namespace Mahotas.C10
 open Mahotas
 
@@ -846,6 +851,13 @@ def handle (a : Args) : String :=
   | k =>
     match Mahotas.C10Misc.handleMisc a with
     | some r => r
-    | none => (Mahotas.C10Surf.handleSurf a).getD s!"error=unknown-kind-{k}"
+    | none =>
+    match Mahotas.C10Surf.handleSurf a with
+    | some r => r
+    | none =>
+    -- round 4: further model files, each answers its own kinds
+    let r4 : List (Args → Option String) := [Mahotas.C10Labeled.handleLabeled, Mahotas.C10Flood.handleFlood,
+      Mahotas.C10Feat.handleFeat, Mahotas.C10Conv.handleConv, Mahotas.C10Alloc.handleAlloc]
+    (r4.findSome? (· a)).getD s!"error=unknown-kind-{k}"
 
 end Mahotas.C10
